@@ -141,8 +141,29 @@ def nontrivial_seq(objs):
     return False
 
 
+def pumped_check(pid, s_, f, n):
+    seq = list(s_) + [f] * n
+    objs = R.instantiate(seq)
+    whole = resolve_citations(objs)
+    pre = resolve_citations(objs[: len(s_)])
+    out = []
+    if pid == "C08":
+        gw, _, _ = R.index_view(objs, whole)
+        gp, _, _ = R.index_view(objs[: len(s_)], pre)
+        restr = [[i for i in g if i < len(s_)] for g in gw]
+        restr = [g for g in restr if g]
+        if gp != restr:
+            out.append(("prefix", f"resolve(prefix of length {len(s_)})={gp} but resolve(whole list of {len(seq)}) restricted to it={restr}"))
+    else:
+        out = R.ORACLES[pid](objs, whole)
+    return out, objs, pre
+
+
 def replay(case, pid):
     R.build_alphabet()
+    if case.get("part") == "pumped":
+        out, _, _ = pumped_check(pid, case["head"], case["filler"], case["n"])
+        return [{"msg": f"{lab}: {det} :: case={case}", "label": lab} for lab, det in out]
     if "seq" in case:
         objs = R.instantiate(case["seq"])
         out, _ = check_objs(pid, objs)
@@ -231,10 +252,8 @@ def run_shard(sh, pid):
     if sh["part"] == "pumped":
         for s_, f, n in pumped_sequences(sh["first"], sh["L"]):
             seq = s_ + [f] * n
-            objs = R.instantiate(seq)
             try:
-                whole = resolve_citations(objs)
-                pre = resolve_citations(objs[: len(s_)])
+                out, objs, pre = pumped_check(pid, s_, f, n)
             except Exception:  # noqa: BLE001
                 continue
             st.evaluations += 1
@@ -247,19 +266,9 @@ def run_shard(sh, pid):
                 st.nontrivial.add(k)
                 if not st.samples:
                     st.sample({"part": "pumped", "head": s_, "filler": f, "copies": n})
-            out = []
-            if pid == "C08":
-                gw, _, _ = R.index_view(objs, whole)
-                gp, _, _ = R.index_view(objs[: len(s_)], pre)
-                restr = [[i for i in g if i < len(s_)] for g in gw]
-                restr = [g for g in restr if g]
-                if gp != restr:
-                    out.append(("prefix", f"resolve(prefix of length {len(s_)})={gp} but resolve(whole list of {len(seq)}) restricted to it={restr}"))
-            else:
-                out = R.ORACLES[pid](objs, whole)
             st.outcomes.add(h64(R.grouping_signature(objs[: len(s_)], pre)))
             for lab, det in out:
-                st.violation({"part": "pumped", "seq": s_ + [f] * n}, f"{lab}: {det} :: head={s_} followed by {n} x {f}", label=f"pumped-{lab}")
+                st.violation({"part": "pumped", "head": s_, "filler": f, "n": n}, f"{lab}: {det} :: head={s_} followed by {n} x {f}", label=f"pumped-{lab}")
         return st
     # docs
     seen = set()
